@@ -150,7 +150,7 @@ def make_analysis(u, klass, G, ths_meta, conv_step=None, W=4, Scols=6):
     model = u.models.Value()
     def disc(results):
         Pv = results.ghostP
-        t = symnp.ndarray.fresh((W,), lambda i: SFloat(SCORE(zi(Pv), zi(i[0])), 'float32'), 'float32'); t.disc_of = results; t.ghostP = Pv
+        t = symnp.ndarray.fresh((W,), lambda i: SFloat(SCORE(zi(Pv), zi(i[0])), 'float64'), 'float64'); t.disc_of = results; t.ghostP = Pv      # a discriminant may return a wider type than the attack's precision (DPA, MIA do)
         return t
     disc.__name__ = 'disc'
     if conv_step is None and not issubclass(klass, u.ana.BaseAttack): a = klass(selection_function=sf, model=model)
@@ -291,7 +291,7 @@ def conv_havoc(a, G, state, k, Pk, step):
     core.assume(conv_invariant(m, f, ln, Pk, step, kpos=core.mk_bool(zi(k) > 0)))
     a._batches_processed = AbsList(f, Pk, ln)
     a.convergence_traces = symnp.ndarray.fresh((4, m), lambda i: SFloat(SCORE(PTS(zi(i[1])), zi(i[0])), 'float32'), 'float32')
-    state['m'] = m; state['first'] = f; state['Pk'] = Pk; state['ln'] = ln
+    state['m'] = m; state['first'] = f; state['Pk'] = Pk; state['ln'] = ln; state['ct0'] = a.convergence_traces
 def conv_preserve(a, G, state, k, step):
     m = state['m']; f = state['first']; Pn = G.P
     ct = a.convergence_traces; m2 = ct.shape[-1]
@@ -304,6 +304,8 @@ def conv_preserve(a, G, state, k, step):
     w = z3.Int('w!cv'); j = z3.Int('j!cv')
     newcol = core.scalar_eq(ct.at(SInt(w), m), SFloat(SCORE(zi(Pn), w), 'float32')) if True else None
     loops.oblige('convergence: the appended column equals the scores on exactly the traces processed so far', 'invariant-step', z3.Implies(z3.And(zi(appended) == 1, w >= 0, w < 4), newcol), dict(text='column m == discriminant(compute()) at P'))
+    if ct is not state.get('ct0'):
+        loops.oblige('convergence: the appended column is stored in a type that holds the scores exactly (no cast to a narrower type)', 'invariant-step', z3.BoolVal(bool(_rnp.can_cast(a.scores.dtype, ct.dtype, 'safe'))), dict(text='scores %s -> convergence_traces %s' % (a.scores.dtype, ct.dtype)))
     oldcol = core.scalar_eq(ct.at(SInt(w), SInt(j)), SFloat(SCORE(PTS(j), w), 'float32'))
     loops.oblige('convergence: earlier columns are unchanged', 'invariant-step', z3.Implies(z3.And(j >= 0, j < m.z, w >= 0, w < 4), oldcol))
     loops.oblige('convergence: a regular point is at least `step` after the previous regular point', 'invariant-step', z3.Implies(zi(appended) == 1, zi(Pn) - f.z >= step.z))
@@ -321,6 +323,8 @@ def conv_post(a, G, state, total, step):
     appended = (zi(mfin) - m.z) if m is not None else z3.IntVal(0)
     ext = z3.Implies(appended == 1, PTS(m.z) == zi(total)) if m is not None else z3.BoolVal(True)
     loops.oblige('convergence: there is at least one column after a run with traces', 'post', zi(mfin) >= 1)
+    if ct is not state.get('ct0'):
+        loops.oblige('convergence: the final column is stored in a type that holds the scores exactly (no cast to a narrower type)', 'post', z3.BoolVal(bool(_rnp.can_cast(a.scores.dtype, ct.dtype, 'safe'))), dict(text='scores %s -> convergence_traces %s' % (a.scores.dtype, ct.dtype)))
     loops.oblige('convergence: the last column equals the final scores', 'post', z3.Implies(z3.And(ext, w >= 0, w < 4, zi(mfin) >= 1), core.scalar_eq(ct.at(SInt(w), mfin - 1), a.scores.at(SInt(w)))))
     loops.oblige('convergence: the last point is the total number of traces', 'post', z3.Implies(ext, PTS(zi(mfin) - 1) == zi(total)))
     if m is not None:
